@@ -38,7 +38,6 @@ BS_1_1_12 == << {1}, {1}, {1, 2} >>
 
 HetTuples == { a \in [1..P -> {0, 1}] : Het(a) }
 SiteRecs(f) == { [b |-> b, a |-> a] : b \in BlkSets[f], a \in HetTuples }
-Ident == [k \in 1..P |-> k]
 
 Init == F = [f \in 1..NF |-> << >>]
 AddSite == /\ Len(F[1]) < MaxN
